@@ -108,13 +108,16 @@ def norm(v):
     if t == "int":
         return ("int", int(v["v"]))
     if t == "float":
+        if v["v"].lstrip("-") in ("nan", "inf"):
+            return ("other", "float:" + v["v"])
         return ("float",) + dec_norm(v["v"])
     if t == "str":
         return ("str", v["v"])
     if t == "bool":
         return ("bool", bool(v["v"]))
     if t == "enum":
-        return ("enum", v["v"])
+        # a member of a class that is not the one this case declared keeps its marker (implutil.canon)
+        return ("enum", v["v"]) if v.get("c") == "Color" else ("other", "enum:" + str(v.get("c")) + "." + v["v"])
     if t in ("list", "tuple"):
         return (t, tuple(norm(x) for x in v["v"]))
     return ("other", json.dumps(v, sort_keys=True))
@@ -125,6 +128,8 @@ def cval(v):
     if t == "int":
         return f"(VInt {cZ(int(v['v']))})"
     if t == "float":
+        if v["v"].lstrip("-") in ("nan", "inf"):
+            return f"(VStr {cstr('<unmodelled:float:' + v['v'] + '>')})"
         neg, m, e = dec_norm(v["v"])
         return f"(VFloat {cbool(neg)} {cZ(m)} {cnat(e)})"
     if t == "str":
@@ -132,6 +137,8 @@ def cval(v):
     if t == "bool":
         return f"(VBool {cbool(v['v'])})"
     if t == "enum":
+        if v.get("c") != "Color":
+            return f"(VStr {cstr('<unmodelled:enum:' + str(v.get('c')) + '>')})"
         return f"(VEnum {cstr(v['v'])})"
     if t == "list":
         return f"(VList {clist([cval(x) for x in v['v']])})"
@@ -371,7 +378,7 @@ def _enc_lit(v):
 
 
 def run_impl(cases):
-    from implutil import canon, outcome_of, reset_simple_parsing_state
+    from implutil import canon, outcome_of, reset_simple_parsing_state, set_current_ns
 
     out = []
     for case in cases:
@@ -379,40 +386,67 @@ def run_impl(cases):
         layout, n = case["layout"], case["n"]
         dests = dests_of(layout, n)
         argv = [] if case["cli"] is None else ["--" + FIELD] + list(case["cli"])
+        extra = {}
 
         def go():
+            import simple_parsing.utils as sp_utils
             from simple_parsing import ArgumentParser, ConflictResolution
 
             ns = {}
             exec(compile(_source(case), "<c11>", "exec", dont_inherit=True), ns)
+            set_current_ns(ns)          # canon(): an Enum member must belong to the class THIS case declared
             p = ArgumentParser(conflict_resolution=ConflictResolution.ALWAYS_MERGE)
-            if layout in ("flat", "nested", "nested_noown"):
-                for i in range(n):
-                    ex = case["explicit"][i]
-                    if ex is not None:
-                        p.add_arguments(ns["A"], f"d{i}", default=ns["A"](**{FIELD: eval(to_src(ex), ns)}))
-                    else:
-                        p.add_arguments(ns["A"], f"d{i}")
-            elif layout == "twice":
-                p.add_arguments(ns["T"], "t")
-            elif layout == "mixed_first":
-                p.add_arguments(ns["In"], "top")
-                p.add_arguments(ns["T"], "t")
-            else:
-                p.add_arguments(ns["T"], "t")
-                p.add_arguments(ns["In"], "top")
-            res = p.parse_args(argv)
-            vals = []
+            try:
+                if layout in ("flat", "nested", "nested_noown"):
+                    for i in range(n):
+                        ex = case["explicit"][i]
+                        if ex is not None:
+                            p.add_arguments(ns["A"], f"d{i}", default=ns["A"](**{FIELD: eval(to_src(ex), ns)}))
+                        else:
+                            p.add_arguments(ns["A"], f"d{i}")
+                elif layout == "twice":
+                    p.add_arguments(ns["T"], "t")
+                elif layout == "mixed_first":
+                    p.add_arguments(ns["In"], "top")
+                    p.add_arguments(ns["T"], "t")
+                else:
+                    p.add_arguments(ns["T"], "t")
+                    p.add_arguments(ns["In"], "top")
+                res = p.parse_args(argv)
+            except Exception as e:  # noqa: BLE001
+                # the property names the library's InconsistentArgumentError, not any class of that name
+                if type(e).__name__ == "InconsistentArgumentError" and type(e) is not sp_utils.InconsistentArgumentError:
+                    raise RuntimeError("an InconsistentArgumentError that is not simple_parsing.utils.InconsistentArgumentError")
+                raise
+            holder = "A" if layout == "flat" else "In"
+            vals, objs = [], []
             for d in dests:
                 v = res
                 for part in d.split("."):
                     v = getattr(v, part)
-                vals.append(canon(getattr(v, FIELD)))
+                x = getattr(v, FIELD)
+                objs.append(x)
+                c = canon(x)
+                if type(v) is not ns[holder]:       # the destination must hold an instance of the registered class
+                    c = {"t": "other", "c": type(v).__name__, "v": "destination object is not an instance of the registered class"}
+                vals.append(c)
+            # namespace attributes literally named like a dotted destination (never reachable as namespace.t.m0)
+            stray = {}
+            for d in dests:
+                if "." in d and d in vars(res):
+                    sv = vars(res)[d]
+                    stray[d] = canon(getattr(sv, FIELD)) if hasattr(sv, FIELD) else {"t": "other", "c": type(sv).__name__, "v": ""}
+            extra["stray"] = stray
+            # sharing between destinations (evidence only: the statement does not speak about object identity)
+            extra["alias"] = any(isinstance(a, (list,)) and a is b for i, a in enumerate(objs) for b in objs[i + 1:])
             return vals
 
         r = outcome_of(go)
-        out.append(dict(obs=r[:2], dests=dests, argv=argv,
-                        lits=None if case["cli"] is None else [_lit(t) for t in case["cli"]]))
+        o = dict(obs=r[:2], dests=dests, argv=argv, stray=extra.get("stray", {}), alias=extra.get("alias", False),
+                 msg=(r[2] if r[0] == "raise" else ""),
+                 streams=([bool(r[2].strip()), bool(r[3].strip())] if r[0] == "exit" else None),
+                 lits=None if case["cli"] is None else [_lit(t) for t in case["cli"]])
+        out.append(o)
     return out
 
 
@@ -554,6 +588,9 @@ def py_spec(case, obs):
     e = spec_expect(case, obs)
     o = observed_norm(obs)
     soft = o in (("exit", 2), ("inconsistent",))
+    where0 = f"argv {obs['argv']} on {case['layout']} n={case['n']} {case['kind']}"
+    if o == ("exit", 2) and obs.get("streams") is not None and (not obs["streams"][0] or obs["streams"][1]):
+        return f"a rejection (exit 2) must be reported on stderr and leave stdout empty, observed stderr/stdout non-empty = {obs['streams']}: {where0}"
     where = f"argv {obs['argv']} on {case['layout']} n={case['n']} {case['kind']} default={_show(case['default'])}" + \
             (f" explicit={[_show(x) for x in case['explicit']]}" if any(x is not None for x in case["explicit"]) else "")
     if e[0] == "be":
@@ -594,41 +631,123 @@ def _showo(o):
     return ":".join(str(x) for x in o)
 
 
+# ----- what each LISTED finding predicts, exactly.  A known signature is returned only when the observation equals that
+# prediction (values, exception class AND message, the stray namespace attribute ...); the same symptom with another
+# cause falls through to a generic signature and is reported.
+
+
+def _by_count(n, vals):
+    if vals is None:
+        return None
+    if len(vals) == 1:
+        return list(vals) * n
+    if len(vals) == n:
+        return list(vals)
+    return None
+
+
+def _token_values(case, obs):
+    """Per token, the value the converter of a merged container field builds today: a bracketed literal gives the container,
+    a BARE literal gives T(literal) unwrapped (the listed defect), a plain word of a str list gives [word]."""
+    kind = case["kind"]
+    is_tup = kind.startswith("Tuple")
+    e = "str" if kind == "List[str]" else "int"
+    out = []
+    for raw, lit in zip(case["cli"], obs["lits"]):
+        if lit is not None and lit[0] == "seq":
+            items = []
+            for it in lit[2]:
+                if it[0] == e:
+                    items.append(("int", int(it[1])) if e == "int" else ("str", it[1]))
+                elif e == "int" and it[0] == "str" and _parse_int(it[1]) is not None:
+                    items.append(("int", _parse_int(it[1])))            # int('3')
+                else:
+                    return None
+            items = tuple(items)
+            out.append(("tuple" if is_tup else "list", items))
+        elif lit is not None and lit[0] == "int":
+            out.append(("int", int(lit[1])) if e == "int" else ("str", str(int(lit[1]))))
+        elif lit is not None and lit[0] == "str" and e == "str":
+            out.append(("str", lit[1]))
+        elif lit is None and e == "str" and _plain_word(raw):
+            out.append(("tuple" if is_tup else "list", (("str", raw),)))
+        else:
+            return None
+    return out
+
+
+def _has_bare(obs):
+    return any(l is not None and l[0] in ("int", "str") for l in obs["lits"])
+
+
+def _explicit_prediction(case):
+    """ALWAYS_MERGE with add_arguments(default=...): the merged wrapper keeps the defaults list of the FIRST destination only."""
+    n, ex, cd = case["n"], case["explicit"], case["default"]
+    es = [norm(x) for x in ex if x is not None]
+    if ex[0] is None:
+        return ("ok", [norm(cd)] * n)                      # defaults of later destinations are ignored
+    if len(es) == 1:
+        return ("ok", es * n)                              # the first destination's default is replicated
+    if len(es) == n:
+        return ("ok", es)
+    if case["kind"] in SCALARS:
+        return ("AssertionError",)
+    return ("ok", [("tuple" if case["kind"].startswith("Tuple") else "list", tuple(es))] * n)   # the partial list, nested
+
+
 def signature(case, obs, reason):
     e = spec_expect(case, obs)
     o = observed_norm(obs)
-    layout, kind = case["layout"], case["kind"]
+    layout, kind, n = case["layout"], case["kind"], case["n"]
     cont = kind not in SCALARS
+    msg = obs.get("msg", "")
     okind = o[0] if o[0] != "raise" else o[1]
     if o[0] == "exit":
         okind = f"exit{o[1]}"
+    if reason and reason.startswith("a rejection (exit 2) must be reported on stderr"):
+        return "rejection:wrong-stream"
+    explicit = any(x is not None for x in case["explicit"])
     if layout.startswith("mixed"):
-        if o == ("raise", "ValueError"):
+        if layout == "mixed_last" and o == ("raise", "ValueError") and msg == "list.remove(x): x not in list":
             return "mixed-level-merge:least-nested-registered-later:ValueError"
-        if o[0] == "ok" and e[0] == "be":
-            return "mixed-level-merge:value-lost-at-nested-destination"
-        return f"mixed-level-merge:{e[0]}:{okind}"
-    if any(x is not None for x in case["explicit"]):
-        if o == ("raise", "AssertionError"):
+        if layout == "mixed_first" and o[0] == "ok" and e[0] == "be" and case["default"] is not None:
+            # evidence of the listed path: `top` is right, every nested destination shows the class default, AND the value it
+            # should have received sits in a namespace attribute literally named like the destination
+            cd = norm(case["default"])
+            want_obs = [e[1][0]] + [cd] * (n - 1)
+            stray = [norm(obs.get("stray", {}).get(d)) if obs.get("stray", {}).get(d) is not None else None for d in obs["dests"][1:]]
+            if o[1] == want_obs and stray == e[1][1:]:
+                return "mixed-level-merge:value-lost-at-nested-destination"
+        return f"mixed-level-merge:{layout}:{e[0]}:{okind}"
+    if explicit:
+        pred = _explicit_prediction(case)
+        first_and_proper_subset = case["explicit"][0] is not None and 2 <= sum(1 for x in case["explicit"] if x is not None) < n
+        if pred == ("AssertionError",) and first_and_proper_subset and o == ("raise", "AssertionError") \
+                and msg.startswith("Not the same number of default values and destinations"):
             return "explicit-default:proper-subset-with-first:AssertionError"
-        if case["cli"] is None and o[0] == "ok":
+        if case["cli"] is None and o[0] == "ok" and pred == o:
             return "explicit-default:absent:wrong-defaults"
-        return f"explicit-default:{e[0]}:{okind}"
+        return f"explicit-default:{'absent' if case['cli'] is None else 'values'}:{e[0]}:{okind}"
     if case["cli"] is None:
         d = case["default"]
-        if o[0] == "ok" and d is not None and d["t"] == "list" and len(d["v"]) == case["n"] and o[1] == [norm(x) for x in d["v"]]:
+        if o[0] == "ok" and d is not None and d["t"] == "list" and len(d["v"]) == n and o[1] == [norm(x) for x in d["v"]]:
             return "absent:list-default-of-length-n:dealt-elementwise"
         return f"absent:{'container' if cont else 'scalar'}:{e[0]}:{okind}"
     if cont:
-        if o == ("raise", "TypeError"):
-            return "container:bare-token:TypeError"
-        if o[0] == "ok" and e[0] == "be" and any(v[0] not in ("list", "tuple") for v in o[1]):
-            if all(l is not None and l[0] == "seq" for l in obs["lits"]):
-                # every token is a bracketed literal, yet a destination received a bare element
-                return "container:bracketed-literal:dealt-elementwise"
-            return "container:bare-token:scalar-delivered"
-        if o[0] == "ok" and e[0] == "reject" and kind == "Tuple[int,int]":
-            return "tuple:arity-unchecked:accepted"
+        pred = _by_count(n, _token_values(case, obs))
+        is_tup = kind.startswith("Tuple")
+        if pred is not None and _has_bare(obs):
+            scalar_reaches = any(v[0] not in ("list", "tuple") for v in pred)
+            if is_tup and scalar_reaches and o == ("raise", "TypeError") and msg == "'int' object is not iterable":
+                return "container:bare-token:TypeError"                       # tuple(3) in postprocess
+            if not is_tup and scalar_reaches and o == ("ok", pred):
+                return "container:bare-token:scalar-delivered"                # exactly T(literal), unwrapped, by the count rule
+        if pred is not None and kind == "Tuple[int,int]" and not _has_bare(obs) and e[0] == "reject" and o == ("ok", pred) \
+                and any(len(v[1]) != 2 for v in pred):
+            return "tuple:arity-unchecked:accepted"                           # the literal's items, whatever their number
+        if o[0] == "ok" and e[0] == "be" and any(v[0] not in ("list", "tuple") for v in o[1]) \
+                and all(l is not None and l[0] == "seq" for l in obs["lits"]):
+            return "container:bracketed-literal:dealt-elementwise"
         return f"container:{e[0]}:{okind}"
     return f"scalar:{kind}:{e[0]}:{okind}"
 
@@ -646,6 +765,7 @@ def features(case, obs):
             "default": "required" if d is None else ("len=n" if d["t"] in ("list", "tuple") and len(d["v"]) == case["n"] else
                                                      "container" if d["t"] in ("list", "tuple") else "scalar"),
             "explicit": sum(1 for x in case["explicit"] if x is not None),
+            "containers-shared-between-destinations": bool(obs.get("alias")),
             "outcome": o[0] + (str(o[1]) if o[0] in ("exit", "raise") else "")}
 
 
